@@ -1524,6 +1524,37 @@ def probe_progset_assembly(ctx):
                           {"probe": "progset-assembly", "demo": name})
 
 
+def probe_failed_calibration(ctx):
+    """Directed probe: a library call that stops with an exception must leave the project as it found it ('leaves its inputs untouched' does not depend on
+    the call succeeding): Project.calibrate with a metric name that does not exist raises; the same run_sim before and after must give the same arrays and the
+    settings must be unchanged."""
+    import sciris as sc
+
+    for name in (["udt"] if ctx.quick else ["udt", "tb_simple", "usdt"]):
+        try:
+            P = sc.dcp(demo_master(name))
+            last = float(np.max(P.data.tvec))
+            P.settings.update_time_vector(end=last + 5)   # the simulation runs beyond the last data year (calibrate shortens it while it works)
+            before = snapshot(P.settings)
+            r0 = P.run_sim(P.parsets[0], store_results=False)
+            raised = None
+            try:
+                P.calibrate(P.parsets[0], max_time=1, metric="no_such_metric", save_to_project=False)
+            except Exception as e:
+                raised = type(e).__name__
+            after = snapshot(P.settings)
+            r1 = P.run_sim(P.parsets[0], store_results=False)
+        except Exception as e:
+            ctx.notes.append(f"failed-calibration probe on {name}: {e!r}"[:200])
+            continue
+        ctx.count("probe.failed_calibration" + ("" if raised else "_did_not_raise"))
+        ctx.case({"probe": "failed-calibration", "demo": name}, nontrivial=True)
+        if before != after or len(r0.t) != len(r1.t):
+            ctx.violation({"api": "Project.calibrate", "case": "settings-changed-after-exception"},
+                          f"{name}: a calibration that raised {raised} left the project settings changed ({str(first_diff(before, after))[:200]}); the same run_sim has {len(r0.t)} time points before and {len(r1.t)} after",
+                          {"probe": "failed-calibration", "demo": name})
+
+
 def run(ctx):
     src0 = source_digest()
     n = ctx.n(30, 600)
@@ -1541,6 +1572,7 @@ def run(ctx):
     probe_hashseeds(ctx)
     probe_partial_initialization(ctx)
     probe_progset_assembly(ctx)
+    probe_failed_calibration(ctx)
     if source_digest() != src0 or any(str(x).startswith("SOURCE-CHANGED") for x in ctx.notes):
         raise RuntimeError("the atomica sources changed while the check was running; observations of different code are not comparable -- run the check again")
     ctx.exhaustive = False
